@@ -162,6 +162,9 @@ fn nbt_write_payload(w: &mut W, v: &Value) {
             // an NBT list has ONE element type. Elements of different kinds are put on the wire the
             // way the game does it: every element that is not a compound (and every compound that
             // looks like such a wrapper itself) is wrapped into a compound under the empty name
+            // (a null entry has no NBT form either: it is absent, as a null field is)
+            let items: Vec<Value> = items.iter().filter(|it| !it.is_null()).cloned().collect();
+            let items = &items;
             let tags: std::collections::BTreeSet<u8> = items.iter().map(nbt_tag_of).collect();
             if tags.len() > 1 {
                 let wrapped: Vec<Value> = items
@@ -430,7 +433,7 @@ fn nbt_read_payload(r: &mut R, tag: u8, depth: usize) -> DResult<Value> {
 pub fn nbt_normalise(v: &Value) -> Value {
     match v {
         Value::Bool(b) => Value::Number(Number::from(*b as i64)),
-        Value::Array(a) => Value::Array(a.iter().map(nbt_normalise).collect()),
+        Value::Array(a) => Value::Array(a.iter().filter(|v| !v.is_null()).map(nbt_normalise).collect()),
         Value::Object(m) => Value::Object(m.iter().filter(|(_, v)| !v.is_null()).map(|(k, v)| (k.clone(), nbt_normalise(v))).collect()),
         other => other.clone(),
     }
